@@ -101,6 +101,25 @@ def _successor_region(fm: FuncModel, e: ast.AST, at, sd_p: str, node_p: str, dep
             return False, f"`{e.id}` undefined"
         for d in defs:
             a = d.ast
+            if d.kind == "for" and isinstance(a.target, ast.Name) and a.target.id == e.id:
+                # element of a list of successor regions: [mk_subspace(space of s) for s in node_successors(node)]
+                it_ = fm.deref(a.iter, d)
+                okc = isinstance(it_, ast.ListComp) and len(it_.generators) == 1 and not it_.generators[0].ifs \
+                    and isinstance(it_.generators[0].target, ast.Name)
+                if okc:
+                    g0 = it_.generators[0]
+                    src = g0.iter
+                    okc = isinstance(src, ast.Call) and callee_name(src) == "node_successors" and bool(src.args) and text(src.args[0]) == node_p
+                    el = it_.elt
+                    okc = okc and isinstance(el, ast.Call) and callee_name(el) == "mk_subspace" and bool(el.args)
+                    if okc:
+                        sp_ = el.args[0]
+                        h = fm.raw_handle(sp_.value) if isinstance(sp_, ast.Subscript) and isinstance(sp_.slice, ast.Constant) \
+                            and sp_.slice.value == "space" else None
+                        okc = h is not None and text(h[1]) == g0.target.id
+                if not okc:
+                    return False, f"`{e.id}` does not range over the regions of the successors of `{node_p}`"
+                continue
             if d.kind == "stmt" and isinstance(a, (ast.Assign, ast.AnnAssign)) and a.value is not None:
                 if isinstance(a.value, ast.Call) and callee_name(a.value) == "union" and text(a.value.func.value) == e.id:
                     r = _successor_region(fm, a.value.args[0], d, sd_p, node_p, depth + 1)
